@@ -496,26 +496,32 @@ pub fn ser_model(sd: &SD, row: bool, db: &[(String, MType)], vals: &[MVal]) -> E
         true
     };
     if !sd.ordered {
-        for (i, f) in &active {
-            match db.iter().position(|(n, _)| n == f.db) {
-                None => {
-                    if f.allow_missing && !row {
-                        // `allow_missing` is documented for deserialization; the serializer also honours it
-                        either = true;
-                    } else {
+        // every database position is filled from the like-named field (bind markers may repeat a name)
+        let mut seen = vec![false; sd.fields.len()];
+        for j in 0..db.len() {
+            match active.iter().find(|(_, f)| f.db == db[j].0) {
+                Some((i, f)) => {
+                    if !place(j, *i, f, &mut either) {
                         return Exp::Reject;
                     }
+                    seen[*i] = true;
                 }
-                Some(j) => {
-                    if !place(j, *i, f, &mut either) {
+                None => {
+                    if row || sd.forbid_excess {
                         return Exp::Reject;
                     }
                 }
             }
         }
-        let excess = db.iter().filter(|(n, _)| !active.iter().any(|(_, f)| f.db == n)).count();
-        if excess > 0 && (row || sd.forbid_excess) {
-            return Exp::Reject;
+        for (i, f) in &active {
+            if !seen[*i] {
+                if f.allow_missing && !row {
+                    // `allow_missing` is documented for deserialization; the serializer also honours it
+                    either = true;
+                } else {
+                    return Exp::Reject;
+                }
+            }
         }
     } else {
         let mut j = 0usize;
@@ -652,14 +658,15 @@ pub fn oracle(c: &Case) -> Verdict {
     let list = if c.row { &fam.rows } else { &fam.udts };
     let ops = &list[c.st as usize % list.len()];
     let sd = ops.sd();
-    // a database never lists one name twice
+    // a UDT or a result set never lists one name twice; the bind markers of a statement may
     let db = db_fields(sd, &c.db);
-    {
+    let has_dup = {
         let mut names: Vec<&str> = db.iter().map(|(n, _)| n.as_str()).collect();
         names.sort();
-        if names.windows(2).any(|w| w[0] == w[1]) {
-            return Ok(CaseInfo::new(false).class("skipped_duplicate_db_name"));
-        }
+        names.windows(2).any(|w| w[0] == w[1])
+    };
+    if has_dup && !(c.row && c.mode == Mode::Ser) {
+        return Ok(CaseInfo::new(false).class("skipped_duplicate_db_name"));
     }
     if c.row && db.is_empty() && c.mode == Mode::De {
         return Ok(CaseInfo::new(false).class("skipped_empty_row"));
@@ -677,6 +684,7 @@ pub fn oracle(c: &Case) -> Verdict {
         .class_if(n_missing > 0, "missing_field")
         .class_if(n_extra > 0, "extra_field")
         .class_if(retyped, "retyped_field")
+        .class_if(has_dup, "repeated_bind_marker_name")
         .class(format!("struct:{}", who.split(' ').next().unwrap_or("")));
     match c.mode {
         Mode::Ser => {
@@ -726,7 +734,7 @@ pub fn oracle(c: &Case) -> Verdict {
                 (Exp::Either(_), false) => "ser_unspecified_refused",
             });
             // value -> bytes -> value is the identity wherever both directions are documented to work
-            if let (Exp::Accept(w), Ok(b), true, false) = (&exp, &got, ops.has_de(), c.row && false) {
+            if let (Exp::Accept(w), Ok(b), true, false) = (&exp, &got, ops.has_de(), has_dup) {
                 if let Exp::Accept(Ok(back)) = de_model(sd, c.row, &db, w) {
                     if ops.type_check(&db).is_ok() {
                         let bytes: Vec<u8> = if c.row { b[2..].to_vec() } else { b.clone() };
@@ -838,12 +846,21 @@ pub fn case() -> BoxedStrategy<Case> {
                 proptest::collection::vec(any::<u16>(), 10),
                 prop_oneof![2 => Just(0u16), 2 => any::<u16>(), 1 => Just(0xffffu16)],
                 prop_oneof![3 => Just(0u8), 1 => 1u8..3],
+                // (rows, serialization) a name listed once more, copied from position .0 to position .1
+                proptest::option::weighted(if row && mode == Mode::Ser { 0.3 } else { 0.0001 }, (any::<u16>(), any::<u16>())),
             )
-                .prop_map(move |(order, missing, extras, retype, seeds, nulls, short)| {
+                .prop_map(move |(order, missing, extras, retype, seeds, nulls, short, dup)| {
                     let mut db: Vec<DbF> = order.iter().filter(|i| (missing >> **i) & 1 == 0).map(|i| DbF::Field { idx: *i, retyped: retype == Some(*i) }).collect();
                     for (k, (n, kind, pos)) in extras.into_iter().enumerate() {
                         let at = pick_idx(pos, db.len() + 1);
                         db.insert(at, DbF::Extra { n: (n % 4) * 2 + k as u8, kind });
+                    }
+                    if let Some((from, to)) = dup {
+                        if !db.is_empty() {
+                            let e = db[pick_idx(from, db.len())].clone();
+                            let at = pick_idx(to, db.len() + 1);
+                            db.insert(at, e);
+                        }
                     }
                     Case { row, st, mode, db, seeds, nulls, short }
                 })
@@ -890,6 +907,15 @@ fn exhaustive(rep: &mut Report, max_perm_fields: usize) {
                             for rt in 0..full.len() {
                                 variants.push(full.iter().enumerate().map(|(k, i)| DbF::Field { idx: *i, retyped: k == rt }).collect());
                             }
+                            if *row {
+                                // one name listed once more: the first column's name again at each position
+                                for at in 0..=full.len() {
+                                    let mut v: Vec<DbF> = full.iter().map(|i| DbF::Field { idx: *i, retyped: false }).collect();
+                                    let e = v[0].clone();
+                                    v.insert(at, e);
+                                    variants.push(v);
+                                }
+                            }
                             for db in variants {
                                 for mode in [Mode::Ser, Mode::De] {
                                     for nulls in [0u16, 0b101010] {
@@ -922,7 +948,7 @@ fn exhaustive(rep: &mut Report, max_perm_fields: usize) {
 pub fn run(ctx: &Ctx, rep: &mut Report) {
     let fam = family();
     rep.rule = format!(
-        "A family of {} UDT structs (SerializeValue + DeserializeValue) and {} row structs (SerializeRow + DeserializeRow) compiled into the harness: 6 fields of distinct types (i32, String, i64, bool, Vec<i32>, f64; also 3- and 1-field structs) under every attribute: flavor match_by_name / enforce_order, rename, skip, flatten (rows), default_when_null, allow_missing (first / middle / last), forbid_excess_udt_fields, skip_name_checks, Option fields. permutations (exhaustive): every permutation of the database's field list x {{as is, each single field missing, one extra field at each position, each single field retyped}} x {{serialize, type_check + deserialize}} x two null patterns. random: shuffled subsets, 0..2 extra fields anywhere, a retyped field, random values, all null patterns over Option / default_when_null / plain fields, UDT values serialized with 0..2 trailing fields absent. Oracle: rule table from the macro documentation - accept / reject, and for accepts the value at each database position (reference decoder) resp. the value of each Rust field (defaults where the attributes say); value -> bytes -> value is the identity whenever both directions are documented to work. Points the documentation leaves open (allow_missing on serialization, excess columns on row deserialization, a mistyped column bound to None) may go either way but must still bind by name. Non-trivial = a non-identity order with a missing or extra field.",
+        "A family of {} UDT structs (SerializeValue + DeserializeValue) and {} row structs (SerializeRow + DeserializeRow) compiled into the harness: 6 fields of distinct types (i32, String, i64, bool, Vec<i32>, f64; also 3- and 1-field structs) under every attribute: flavor match_by_name / enforce_order, rename, skip, flatten (rows), default_when_null, allow_missing (first / middle / last), forbid_excess_udt_fields, skip_name_checks, Option fields. permutations (exhaustive): every permutation of the database's field list x {{as is, each single field missing, one extra field at each position, each single field retyped, (rows) one bind-marker name repeated at each position}} x {{serialize, type_check + deserialize}} x two null patterns. random: shuffled subsets, 0..2 extra fields anywhere, a retyped field, random values, all null patterns over Option / default_when_null / plain fields, UDT values serialized with 0..2 trailing fields absent. Oracle: rule table from the macro documentation - accept / reject, and for accepts the value at each database position (reference decoder) resp. the value of each Rust field (defaults where the attributes say); value -> bytes -> value is the identity whenever both directions are documented to work. Points the documentation leaves open (allow_missing on serialization, excess columns on row deserialization, a mistyped column bound to None) may go either way but must still bind by name. Non-trivial = a non-identity order with a missing or extra field.",
         fam.udts.len(),
         fam.rows.len()
     );
